@@ -135,6 +135,16 @@ func RunProperty(e *hx.Env, prop string, mon Monitor) *hx.Report {
 	b4 := RunCorrespondence(e, prop, e.N(500, 10000), p4, mon)
 	b4.Fill(r)
 	lap("profile adversarial")
+	// profile 5: the Binding call - repeated binds of already bound live pods (same node / another node), lost
+	// responses followed by the scheduler's retry, an unavailable apiserver; the events Bind queues are delivered by
+	// the ordinary deliver ops.  These binds sit out the 3 s of Bind's retry loop, so the histories are short and all
+	// run concurrently.
+	p5 := DefaultParams()
+	p5.Len, p5.Identities, p5.SyncAfter = 26, 3, 0.8
+	p5.RebindWeight, p5.BindAnswerPct, p5.SlowBindCap, p5.Par = 3.0, 25, 2, e.N(100, 400)
+	b5 := RunCorrespondence(e, prop, e.N(100, 4000), p5, mon)
+	b5.Fill(r)
+	lap("profile binding-answers")
 	if e.Thorough() {
 		x := Exhaustive(e, prop, mon, 8, 8*60)
 		x.Fill(r)
@@ -143,7 +153,7 @@ func RunProperty(e *hx.Env, prop string, mon Monitor) *hx.Report {
 		r.Extra["exhaustive_depth_completed"] = x.HistoryFlags["exhaustive-depth-completed"]
 		r.Exhaustive = false // bounded scope: all states reachable within the depth over the small alphabet only
 	}
-	r.Extra["profiles"] = []string{"default", "few-identities-long", "provider-and-faults", "stale-binds-and-varying-ranges"}
+	r.Extra["profiles"] = []string{"default", "few-identities-long", "provider-and-faults", "stale-binds-and-varying-ranges", "binding-answers"}
 	r.Extra["histories"] = fmt.Sprintf("%d", r.Traces)
 	return r
 }
